@@ -18,10 +18,15 @@
 (*                 res_load / res_sgen / res_asymmetric_load / res_asymmetric_sgen                                   *)
 (*                                                                                                                   *)
 (* Tolerances (stated once, DESIGN 2.3): two independent solves (symmetric NR with tolerance_mva = 1e-9; runpp_3ph    *)
-(* with its fixed outer tolerance of 3e-8 p.u. on the positive-sequence mismatch, runpp_3ph.py:481) are compared      *)
-(* with Close(a, b, 30 micro, 20 ppm), angles with 300 micro-degree; a nodal balance of one solve (<= 12 terms, each   *)
-(* rounded to 1 micro) with 30 micro-MW absolute; an element result that is a copy of an input with 2 micro.          *)
-(* Measured residuals on the whole thorough run are < 1 micro-MW, the smallest defect of interest is 1000 micro-MW.   *)
+(* with its fixed outer tolerance of 3e-8 p.u. on the positive-sequence mismatch only, runpp_3ph.py:481-485) are      *)
+(* compared with Close(a, b, 30 micro, 20 ppm), angles with 300 micro-degree; an element result that is a copy of an  *)
+(* input with 2 micro.  A nodal balance of one three-phase solve (<= 12 terms, each rounded to 1 micro) gets 100       *)
+(* micro-MW absolute: the zero / negative sequence voltages lag the positive sequence by one iteration when the loop  *)
+(* stops, so the per-phase residual is larger than the stopping tolerance; the largest residual measured over the     *)
+(* thorough space is 1.1 micro-MW (Yzn, whose zero-sequence path converges slowly; evidence key                       *)
+(* max_per_phase_nodal_residual_mw_non_slack), balanced cases agree with runpp to 1e-11.  The smallest power of any    *)
+(* element phase in the generated networks is 420 micro-Mvar, so a dropped / doubled / mis-signed contribution is far  *)
+(* outside every tolerance.                                                                                           *)
 EXTENDS Phase3Def, Fix, Json, IOUtils
 VARIABLE i
 Cases == JsonDeserialize(IOEnv.OBS_FILE)
@@ -34,7 +39,7 @@ R1 == C.r1
 AbsTol == 30
 RelPpm == 20
 AngTol == 300
-NodalTol == 30
+NodalTol == 100
 CopyTol == 2
 PQ == {"p", "q"}
 Ok3 == C.out3 = "ok"
@@ -61,8 +66,9 @@ H_Shape == /\ Len(C.unitp) = 4 /\ Len(C.unitq) = 4
 \* ---- bindings of the model's decision functions (a failure is a divergence: the model is wrong, or a finding outside C11)
 \* pd2ppc_zero.py:256: exactly the configurations with a transformer row of a "rejected" group raise NotImplementedError
 Div_Rejected == (C.out3 = "notimpl") <=> Rejects(Cfg)
-\* the buses with a voltage result are exactly the supplied ones
-Div_Supplied == Ok3 => {b \in Bus : IsNum(R3.bus[b].vm[1])} = Sup
+\* the buses with a voltage result are exactly the supplied ones (documented vector groups only: with an "open" group
+\* and unbalanced LV loading runpp_3ph returns converged = True with NaN everywhere -- counted by the harness)
+Div_Supplied == Solved => {b \in Bus : IsNum(R3.bus[b].vm[1])} = Sup
 Div_NoCrash == C.out3 # "error" /\ C.out1 # "error"
 
 \* ---- C11: a converged run reports numbers wherever the relations below read them ----------------------------------------
